@@ -34,6 +34,7 @@ type trMem struct {
 	RestoreService      string `json:"restoreService"`
 	RestoreGateway      string `json:"restoreGateway"`
 	RemoveCanaryService string `json:"removeCanaryService"`
+	UpdateRoute         string `json:"updateRoute"`
 }
 
 type trCtx struct {
@@ -44,6 +45,7 @@ type trCtx struct {
 	StableRev  string `json:"stableRev"`
 	CanaryRev  string `json:"canaryRev"`
 	LastUpdate string `json:"lastUpdate"` // none|fresh|elapsed
+	HasRevKey  *bool  `json:"hasRevKey,omitempty"` // nil = true; false = RevisionLabelKey empty (workload unreadable)
 }
 
 type trIn struct {
@@ -87,6 +89,9 @@ func trContext(c trCtx) *trafficrouting.TrafficRoutingContext {
 	t := &trafficrouting.TrafficRoutingContext{Key: "Rollout(ns/r)", Namespace: trNS, RevisionLabelKey: trRevKey,
 		StableRevision: c.StableRev, CanaryRevision: c.CanaryRev, DisableGenerateCanaryService: c.DisableGen,
 		OwnerRef: metav1.OwnerReference{APIVersion: "rollouts.kruise.io/v1beta1", Kind: "Rollout", Name: "r", UID: trOwnerUID}}
+	if c.HasRevKey != nil && !*c.HasRevKey {
+		t.RevisionLabelKey = ""
+	}
 	if c.HasRef {
 		t.ObjectRef = []v1beta1.TrafficRoutingRef{{Service: trSvc, GracePeriodSeconds: int32(c.Grace),
 			Ingress: &v1beta1.IngressTrafficRouting{Name: trIng, ClassType: "nginx"}}}
@@ -118,6 +123,7 @@ func trSetMem(m trMem, canaryKey string) {
 	set(trSvcUID, "restoreService", m.RestoreService)
 	set(trOwnerUID, "restoreGateway", m.RestoreGateway)
 	set(canaryKey, "removeCanaryService", m.RemoveCanaryService)
+	set(trOwnerUID, "updateRoute", m.UpdateRoute)
 }
 
 func trGetMem(canaryKey string) trMem {
@@ -131,14 +137,16 @@ func trGetMem(canaryKey string) trMem {
 		}
 		return "fresh"
 	}
-	return trMem{get(trSvcUID, "patchService"), get(trSvcUID, "restoreService"), get(trOwnerUID, "restoreGateway"), get(canaryKey, "removeCanaryService")}
+	return trMem{get(trSvcUID, "patchService"), get(trSvcUID, "restoreService"), get(trOwnerUID, "restoreGateway"), get(canaryKey, "removeCanaryService"), get(trOwnerUID, "updateRoute")}
 }
 
 // trBuild concretises the abstract net into a fake client. The canary Ingress
 // for weight w is produced by the real provider (so that its annotations are
 // exactly what the class script writes).
-func trBuild(n trNet) *LogClient {
-	var objs []client.Object
+func trBuild(n trNet) *LogClient { return trBuildWith(n) }
+
+func trBuildWith(n trNet, extra ...client.Object) *LogClient {
+	objs := append([]client.Object{}, extra...)
 	if n.StableExists {
 		objs = append(objs, trStableService(n.StableSel))
 	}
@@ -232,6 +240,8 @@ func trRun(in trIn) interface{} {
 		b, err = m.FinalisingTrafficRouting(tc)
 	case "doTrafficRouting":
 		b, err = m.DoTrafficRouting(tc)
+	case "routeAllToNew":
+		b, err = m.RouteAllTrafficToNewVersion(tc)
 	default:
 		panic("bad call " + in.Call)
 	}
@@ -264,7 +274,7 @@ func trRun(in trIn) interface{} {
 	// a patch of the stable Service pins it in patchStableService/doTrafficRouting and unpins it elsewhere
 	for i, w := range writes {
 		if w == "patchStable?" {
-			if in.Call == "patchStableService" || in.Call == "doTrafficRouting" {
+			if in.Call == "patchStableService" || in.Call == "doTrafficRouting" || in.Call == "routeAllToNew" {
 				writes[i] = "patchStable"
 			} else {
 				writes[i] = "unpinStable"
@@ -281,7 +291,7 @@ func trCase(c *Ctx, in trIn) {
 	c.Emit("call", in, impl)
 }
 
-var trCalls = []string{"patchStableService", "restoreStableService", "restoreGateway", "removeCanaryService", "finalisingTrafficRouting", "doTrafficRouting"}
+var trCalls = []string{"patchStableService", "restoreStableService", "restoreGateway", "removeCanaryService", "finalisingTrafficRouting", "doTrafficRouting", "routeAllToNew"}
 var trExp = []string{"none", "none", "fresh", "elapsed"}
 
 func genTraffic(c *Ctx) trIn {
@@ -302,6 +312,10 @@ func genTraffic(c *Ctx) trIn {
 		w := []int{0, 5, 20, 50, 100}[c.Rng.Intn(5)]
 		in.Ctx.Weight = &w
 	}
+	if (in.Call == "restoreStableService" || in.Call == "finalisingTrafficRouting") && c.Rng.Intn(6) == 0 {
+		f := false
+		in.Ctx.HasRevKey = &f
+	}
 	n := trNet{StableExists: c.Rng.Intn(12) != 0, StableIngress: c.Rng.Intn(12) != 0}
 	if c.Rng.Intn(2) == 0 {
 		r := revs[c.Rng.Intn(2)]
@@ -319,7 +333,7 @@ func genTraffic(c *Ctx) trIn {
 		n.StableSel = nil
 	}
 	in.Net = n
-	in.Mem = trMem{trExp[c.Rng.Intn(4)], trExp[c.Rng.Intn(4)], trExp[c.Rng.Intn(4)], trExp[c.Rng.Intn(4)]}
+	in.Mem = trMem{trExp[c.Rng.Intn(4)], trExp[c.Rng.Intn(4)], trExp[c.Rng.Intn(4)], trExp[c.Rng.Intn(4)], trExp[c.Rng.Intn(4)]}
 	return in
 }
 
